@@ -132,11 +132,13 @@ def gen_value(rng, kind, pool):
 
 def sql_sort_component(ck, tier, runner):
     rng = Rng(ck.seed * 7919 + 13)
-    ncases = 60 if tier == "quick" else 1200
+    ncases = 120 if tier == "quick" else 2500
     done = 0
     for case in range(ncases):
         ncols = 1 + rng.below(3)
         cols = [rng.pick(TYPES) for _ in range(ncols)]
+        if ncols >= 2 and rng.chance(1, 2):
+            cols[rng.below(ncols)] = TYPES[6]          # make sure a TEXT key is present often (prefix + heap comparison)
         nrows = rng.pick([0, 1, 2, 7, 40, 40, 300, 300, 2500] if tier == "quick" else [0, 1, 2, 7, 40, 300, 2500, 9000])
         pools = []
         rows = []
@@ -152,12 +154,14 @@ def sql_sort_component(ck, tier, runner):
             rows.append(row)
         names = [f"c{i}" for i in range(ncols)]
         stmts = ["CREATE TEMP TABLE t (" + ", ".join(f"{n} {t}" for n, (t, _) in zip(names, cols)) + ")"]
-        for i in range(0, len(rows), 500):
-            chunk = rows[i:i + 500]
-            stmts.append("INSERT INTO t VALUES " + ", ".join("(" + ", ".join(r) + ")" for r in chunk))
         parts = rng.pick([1, 2, 3, 8, 16])
-        bsz = rng.pick([1, 2, 7, 64, 2048, 8192]) if nrows <= 400 else rng.pick([64, 500, 2048, 8192])
+        # one INSERT feeds one partition: use several INSERTs so that several sorted runs exist and are merged
+        per_insert = max(1, rng.pick([len(rows) // max(1, parts) + 1, 7, 50, 500]))
         stmts.append(f"SET partitions TO {parts}")
+        for i in range(0, len(rows), per_insert):
+            chunk = rows[i:i + per_insert]
+            stmts.append("INSERT INTO t VALUES " + ", ".join("(" + ", ".join(r) + ")" for r in chunk))
+        bsz = rng.pick([1, 2, 7, 64, 2048, 8192]) if nrows <= 400 else rng.pick([64, 500, 2048, 8192])
         stmts.append(f"SET batch_size TO {bsz}")
         stmts.append("SELECT * FROM t")
         # ORDER BY spec
